@@ -25,9 +25,18 @@ Proxy._register / _worker / _lookup / _unregister / stop.  Replaced: ru.zmq.Clie
 (__init__/start/wait), ru.zmq.PubSub / Queue (in-memory bridges whose stop()
 disposes what they hold), multiprocessing in proxy.py (the worker runs in a
 thread), the component manager (closing it ends the side's components and
-local bridges).  After close() the side's process is considered gone."""
+local bridges).  After close() the side's process is considered gone.
+
+Fault cases (kind 'fault'): a fault schedule names, per crosswire (side,
+direction, channel), the calls of publisher.put on that crosswire's publisher
+(1st, 2nd, ...) that raise; the in-memory publisher counts the calls made by the
+publisher object created inside Session.crosswire_pubsub and raises accordingly;
+the exception leaves the real pubsub_fwd and is swallowed and counted by the
+network exactly where ru's Subscriber._listener logs 'callback error'.  The
+harness records (crosswire, message id) of every raising put."""
 import itertools
 import os
+import sys
 import threading
 from unittest import mock
 
@@ -67,6 +76,8 @@ class Net:
         self.servers = {}     # address -> request server (the proxy service)
         self.requests = []    # [side, request] as seen by the proxy service
         self.count = 0
+        self.faults = {}      # crosswire (side, from_proxy, channel) -> set of put attempts that raise
+        self.failures = []    # [side, from_proxy, channel, message id] of every put that raised
 
     def fresh(self):
         self.count += 1
@@ -136,6 +147,15 @@ class FakePublisher:
         self._channel = channel
         self._url = url
         self._bridge = _bridge(url, 'pub')
+        # is this the publisher of a crosswire (created inside Session.crosswire_pubsub)?  Then its
+        # put() calls are the hand-over attempts of that crosswire: (side, from_proxy, channel)
+        self._wire = None
+        self._attempts = 0
+        fr = sys._getframe(1)
+        if fr.f_code.co_name == 'crosswire_pubsub' and isinstance(NET.actor, int):
+            src = str(fr.f_locals.get('src', ''))
+            ch = 0 if 'control' in src else 1
+            self._wire = (NET.actor, 1 if fr.f_locals.get('from_proxy') else 0, ch)
 
     channel = property(lambda self: self._channel)
 
@@ -143,6 +163,11 @@ class FakePublisher:
         import radical.utils as ru
         from radical.utils.serialize import to_msgpack
         assert isinstance(topic, str), 'invalid topic type'
+        if self._wire is not None:
+            self._attempts += 1
+            if self._attempts in NET.faults.get(self._wire, ()):
+                NET.failures.append(list(self._wire) + [C16._msg_id(msg)])
+                raise RuntimeError('zmq: put failed (injected fault, attempt %d)' % self._attempts)
         data = ru.as_bytes(topic.replace(' ', '_')) + b' ' + to_msgpack(msg)
         if self._bridge in NET.dead:           # nobody there any more
             return
@@ -386,17 +411,30 @@ def ops_lit(case):
 REQ = ['Register', 'Lookup', 'Unregister']
 
 
+def wkey_lit(a, f, c):
+    return '(%s, %s, %s)' % (L.nat(a), L.boolean(bool(f)), chan_lit(c))
+
+
+def faults_lit(case):
+    return L.lst(['(%s, %s)' % (wkey_lit(a, f, c), L.lst([L.nat(k) for k in ns])) for a, f, c, ns in case['faults']])
+
+
+def fault_args(case):
+    return '%s %s %s %s' % (faults_lit(case), L.nat(case['n']), L.lst([post_lit(p) for p in case['posts']]),
+                            L.lst([L.nat(k) for k in case['sched']]))
+
+
 class C16(Prop):
     id = 'C16'
     module = 'c16'
     title = 'Client and agents exchange each forwarded message exactly once'
     props_files = ['Props/C16.v']
-    extra_targets = ['Fwd/Oracle.vo', 'Fwd/LifeOracle.vo']
-    model_targets = ['Fwd/Oracle.vo', 'Fwd/LifeOracle.vo']
+    extra_targets = ['Fwd/Oracle.vo', 'Fwd/LifeOracle.vo', 'Fwd/FaultOracle.vo']
+    model_targets = ['Fwd/Oracle.vo', 'Fwd/LifeOracle.vo', 'Fwd/FaultOracle.vo']
     translators = []
-    header = 'From RP Require Import Fwd.Model Fwd.Oracle Fwd.Life Fwd.LifeOracle.'
+    header = 'From RP Require Import Fwd.Model Fwd.Oracle Fwd.Life Fwd.LifeOracle Fwd.Fault Fwd.FaultOracle.'
     clauses = ['exactly_once', 'not_back_to_origin', 'unflagged_stays_local', 'no_stray_delivery', 'no_circulation',
-               'only_owner_unregisters']
+               'only_owner_unregisters', 'at_most_once_under_faults']
     corr_name = ('Fwd.Model(network/pubsub_fwd/crosswire_proxy/source_msg) + Fwd.Life(life_run: connect/close/round) vs '
                  'Session.crosswire_pubsub/_crosswire_proxy/_publish_cfg/__init__/_start_proxy/_connect_proxy/close + '
                  'Proxy._register/_lookup/_unregister + Client/AgentComponent.advance/publish on an in-memory pubsub network')
@@ -407,8 +445,11 @@ class C16(Prop):
             'seed-determined transport schedule; life cycles: client + 2 pilots with every order of the three closes and '
             'messages in between (external and embedded proxy), pilots that come too early / restart / come after the '
             'client closed, 150 (thorough 2500) random histories of connect / close / round events over up to 4 (6) '
-            'pilots; non-trivial = a network with >= 1 pilot in which some message was delivered on a side other than '
-            'the one it was posted on (life cycles: such a message posted after some pilot has closed)')
+            'pilots; failing hand-overs: five flagged messages over one crosswire with a sample (thorough: all 31 non-empty '
+            'subsets) of failing attempts among the first five, both directions, plus 120 (thorough 2500) random message '
+            'batches with random fault schedules on up to three crosswires; non-trivial = a network with >= 1 pilot in which some message was delivered on a side other than '
+            'the one it was posted on (life cycles: such a message posted after some pilot has closed; faults: some '
+            'hand-over failed and some message still crossed)')
     trusted = [
         'correspondence harness harness/c16.py: real Session.__init__/_init_primary/_init_agent_0/_publish_cfg/'
         '_crosswire_proxy/crosswire_pubsub and real Client/AgentComponent.advance/publish/register_* driven on stub '
@@ -420,6 +461,8 @@ class C16(Prop):
         'stand-ins (synchronous request dispatch into the real request table, bridges whose stop() disposes what they '
         'hold, worker in a thread), the component manager replaced by one that ends the side\'s components and local '
         'bridges; a closed side\'s process is considered gone',
+        'fault cases: publisher.put of a crosswire raises on scheduled attempts (in-memory publisher); the exception is '
+        'swallowed where ru.zmq.Subscriber._listener swallows it',
         'modelled, not verified: zmq delivery and ordering, the real zmq bridges of the proxy and its monitor thread / '
         'heartbeat timeout, messages in flight while a session closes (life-cycle events happen at silent moments), '
         'the task queues crosswired by the task manager, the contents of messages other than origin/fwd',
@@ -485,11 +528,51 @@ class C16(Prop):
             sched = [rng.randint(0, 11) for _ in range(rng.randint(0, k * (n + 3)))]
             yield {'kind': 'net', 'n': n, 'posts': posts, 'sched': sched}
         yield from self._life_cases(rng, tier)
+        yield from self._fault_cases(rng, tier)
         if tier == 'thorough':
             raws = [p for p in self._single_posts(2) if p['via'] == 'raw' and p['ch'] == 0]
             for a, b in itertools.product(raws, repeat=2):
                 for sched in ([], [1, 0, 2, 1, 3]):
                     yield {'kind': 'net', 'n': 2, 'posts': [a, b], 'sched': sched}
+
+    def _fault_cases(self, rng, tier):
+        def P(at, ch, fwd=True):
+            return {'at': at, 'ch': ch, 'via': 'raw', 'origin': None, 'fwd': fwd}
+        if tier == 'quick':
+            subsets = [[1], [2], [3], [1, 2], [2, 3], [1, 3], [2, 4], [1, 4], [3, 5], [1, 3, 5], [2, 3, 4], [1, 2, 3, 4, 5]]
+        else:
+            subsets = [[k + 1 for k in range(5) if (m >> k) & 1] for m in range(1, 32)]
+        # five flagged messages over ONE crosswire, every pattern of failing hand-over attempts, both directions
+        for n, s0, ch in ((1, 0, 0), (2, 1, 1)):
+            posts = [P(s0, ch) for _ in range(5)]
+            rcv = 1 if s0 == 0 else 0
+            for ns in subsets:
+                yield {'kind': 'fault', 'n': n, 'posts': posts, 'sched': [], 'faults': [[s0, 0, ch, ns]]}
+                yield {'kind': 'fault', 'n': n, 'posts': posts, 'sched': [], 'faults': [[rcv, 1, ch, ns]]}
+            if tier != 'quick':
+                for ns in subsets:
+                    yield {'kind': 'fault', 'n': n, 'posts': posts, 'sched': [3, 1, 4, 1, 5, 9, 2, 6],
+                           'faults': [[s0, 0, ch, ns], [rcv, 1, ch, ns[::-1][:2]]]}
+        # random messages, random faults
+        for _ in range(120 if tier == 'quick' else 2500):
+            n = rng.randint(1, 4)
+            k = rng.randint(2, 6)
+            hot = rng.randint(0, n)
+            posts = []
+            for _j in range(k):
+                p = self._rand_post(rng, n)
+                if rng.random() < 0.6:
+                    p = P(hot, rng.randint(0, 1), rng.random() < 0.85)
+                posts.append(p)
+            faults, seen = [], set()
+            for _j in range(rng.randint(1, 3)):
+                key = (rng.randint(0, n) if rng.random() < 0.5 else hot, rng.randint(0, 1), rng.randint(0, 1))
+                if key in seen:
+                    continue
+                seen.add(key)
+                faults.append(list(key) + [sorted(rng.sample(range(1, 7), rng.randint(1, 3)))])
+            sched = [rng.randint(0, 9) for _ in range(rng.randint(0, k * (n + 3)))]
+            yield {'kind': 'fault', 'n': n, 'posts': posts, 'sched': sched, 'faults': faults}
 
     def _life_cases(self, rng, tier):
         def P(at, fwd=True, ch=0):
@@ -660,8 +743,10 @@ class C16(Prop):
         with mock.patch.object(ru.zmq, 'Publisher', FakePublisher), \
              mock.patch.object(ru.zmq, 'Subscriber', FakeSubscriber):
             for k in range(n + 1):
+                NET.actor = k
                 s = self._session(k)
                 comps.append(self._component(k, s))
+        NET.actor = None
         return comps
 
     def _post(self, comp, i, p):
@@ -852,10 +937,15 @@ class C16(Prop):
             return {'out': out[0] if out else None, 'errors': NET.errors}
         n = case['n']
         comps = self._build(n)
+        if case['kind'] == 'fault':
+            NET.faults = {(a, f, c): set(ns) for a, f, c, ns in case['faults']}
         for i, p in enumerate(case['posts']):
             self._post(comps[p['at']], i, p)
         NET.run(len(case['posts']) * (n + 3), case['sched'])
-        return {'events': NET.events, 'npub': NET.npub, 'quiet': not NET.pending, 'errors': NET.errors}
+        out = {'events': NET.events, 'npub': NET.npub, 'quiet': not NET.pending, 'errors': NET.errors}
+        if case['kind'] == 'fault':
+            out['failures'] = NET.failures
+        return out
 
     # ------------------------------------------------------------------ coq
     def coq_row(self, case, obs):
@@ -864,8 +954,13 @@ class C16(Prop):
                 L.lst([ev_lit(e) for e in obs['events']]), L.nat(obs['npub']), L.boolean(obs['quiet']),
                 L.nat(obs['errors']), L.lst(['(%s, %s)' % (L.nat(a), REQ[c]) for a, c in obs['reqs']]),
                 L.nat(obs['fails']))
-            return '(c16_life_row %s %s)' % (ops_lit(case), ob)
-        return '(%s ++ [true])' % self._coq_row_static(case, obs)
+            return '(c16_life_row %s %s ++ [true])' % (ops_lit(case), ob)
+        if case['kind'] == 'fault':
+            ob = '(%s, %s, %s, %s, %s)' % (
+                L.lst([ev_lit(e) for e in obs['events']]), L.nat(obs['npub']), L.boolean(obs['quiet']),
+                L.nat(obs['errors']), L.lst(['(%s, %s)' % (wkey_lit(a, f, c), L.nat(i)) for a, f, c, i in obs['failures']]))
+            return '(c16_fault_row %s %s)' % (fault_args(case), ob)
+        return '(%s ++ [true; true])' % self._coq_row_static(case, obs)
 
     def _coq_row_static(self, case, obs):
         if case['kind'] == 'fwd':
@@ -883,6 +978,8 @@ class C16(Prop):
     def model_show(self, case):
         if case['kind'] == 'life':
             return 'life_obs %s' % ops_lit(case)
+        if case['kind'] == 'fault':
+            return 'model_fobs %s' % fault_args(case)
         if case['kind'] == 'fwd':
             return 'pubsub_fwd %s %s %s' % (L.nat(case['me']), L.boolean(case['fp']),
                                             msg_lit(0, case['origin'], case['fwd']))
@@ -910,6 +1007,10 @@ class C16(Prop):
                             late.add(i)
                         i += 1
             return any(e[2] in late and e[0] != at[e[2]] for e in obs['events'])
+        if case['kind'] == 'fault':
+            # some hand-over failed AND some message still crossed
+            at = {i: p['at'] for i, p in enumerate(case['posts'])}
+            return bool(obs['failures']) and any(e[0] != at.get(e[2]) for e in obs['events'])
         if case['kind'] != 'net' or case['n'] < 1:
             return False
         at = {i: p['at'] for i, p in enumerate(case['posts'])}
@@ -918,6 +1019,8 @@ class C16(Prop):
     def signature(self, case, obs, clause):
         if case['kind'] == 'life':
             return '%s:Session.close/proxy life cycle' % clause
+        if case['kind'] == 'fault':
+            return '%s:crosswire_pubsub under failing put' % clause
         if case['kind'] == 'fwd':
             return '%s:pubsub_fwd' % clause
         return '%s:Session.crosswire_pubsub' % clause
@@ -944,6 +1047,26 @@ class C16(Prop):
                                     if p['via'] != 'raw' else None
                             q = {'at': p['at'], 'ch': 0, 'via': 'raw', 'origin': p.get('origin'), 'fwd': f}
                             yield dict(case, ops=ops[:i] + [['round', op[1][:j] + [q] + op[1][j + 1:], op[2]]] + ops[i + 1:])
+            return
+        if case['kind'] == 'fault':
+            fs = case['faults']
+            for i in range(len(fs)):
+                yield dict(case, faults=fs[:i] + fs[i + 1:])
+                a, f, c, ns = fs[i]
+                for j in range(len(ns)):
+                    if len(ns) > 1:
+                        yield dict(case, faults=fs[:i] + [[a, f, c, ns[:j] + ns[j + 1:]]] + fs[i + 1:])
+            ps = case['posts']
+            if len(ps) > 1:
+                for i in range(len(ps)):
+                    yield dict(case, posts=ps[:i] + ps[i + 1:], sched=[])
+            if case['sched']:
+                yield dict(case, sched=[])
+            n = case['n']
+            top = max([p['at'] for p in ps] + [a for a, _, _, _ in fs] +
+                      [p['origin'] for p in ps if p['via'] == 'raw' and p['origin'] is not None and p['origin'] <= n])
+            if n > 0 and top <= n - 1 and not any(p['via'] == 'raw' and (p['origin'] or 0) > n for p in ps):
+                yield dict(case, n=n - 1, sched=[])
             return
         if case['kind'] != 'net':
             return
@@ -977,6 +1100,11 @@ class C16(Prop):
         for r in results:
             c = r['case']
             kinds[c['kind']] = kinds.get(c['kind'], 0) + 1
+            if c['kind'] == 'fault':
+                ns[str(c['n'])] = ns.get(str(c['n']), 0) + 1
+                for a, f, ch, att in c['faults']:
+                    key = 'fault/%s/attempts=%s' % ('proxy->local' if f else 'local->proxy', ','.join(map(str, att)))
+                    vias[key] = vias.get(key, 0) + 1
             if c['kind'] == 'life':
                 for op in c['ops']:
                     key = 'life/' + (op[0] if op[0] == 'round' else '%s %s' % (op[0], 'client' if op[1] == 0 else 'pilot'))
